@@ -90,6 +90,11 @@ CHECKS = {
          "For EVERY datagram size from 0 to the maximum+2, in three MTU states (initial 1200, after discovery to 1452, after black-hole fallback to 1200), for peer max_datagram_frame_size in {absent, 0, 1, 2, 9, 10, 100, 1200, 65535}, send buffers {default, size, size-1, 0} and datagrams locally disabled, send() on a real established connection must answer exactly as the property states; max_size() must fit one packet on the current path and the peer's limit by independent arithmetic; an accepted datagram must appear exactly once on the wire, in one DATAGRAM frame no larger than the peer's limit inside a UDP datagram no larger than the MTU, and arrive byte-identical. Every sequence up to the depth bound over send(len, drop) / flush / recv / send_buffer_space is compared with a FIFO byte-budget model (Blocked, DatagramsUnblocked exactly once, oldest dropped first on both sides). A mixed stream+datagram workload is explored under <=k fate deviations: every received datagram equals one sent and none is delivered more often than sent+duplicated by the network.",
          "Sequences call send() without polling in between; flush runs a loss-free network to quiescence.",
          "DESIGN.md#c16"),
+ "C17": ("E3+E2", "fault_enumeration",
+         "exhaustive drop-mask enumeration + deviation-bounded stateless exploration of real endpoints resuming with a ticket, over accept/reject x Retry x late accept x remembered-vs-new parameters, with salted early data and a differential comparison against a fresh connection",
+         "A client holding a ticket (model TLS; remembered server parameters taken from a real earlier handshake) starts its workload before the handshake completes. For six early workloads (both stream directions, finishes, resets incl. one issued while the window is full, a stop, empty streams, datagrams within and beyond the initial window, 30 kB of stream data, more streams than a small remembered limit) x accept/reject x Retry x accept at once / at a later step x remembered parameters equal / smaller / larger than the new ones, every drop subset of the first K datagrams (both directions) and every <=k drop/dup/delay deviation is run. Accepted: every early byte reaches the server application exactly once and the workload completes. Rejected: early writes carry a salt, so any early byte, reset code or datagram reaching the server application is detected; every early stream answers ClosedStream; accepted_0rtt() is truthful; at Connected the client's peer limits, stream counters, data_sent, unacknowledged bytes and datagram queue equal those of a fresh ticket-less connection, and so does everything loss-independent at the end. Accepted with reduced limits: the client must not carry on.",
+         "Model TLS decides acceptance by configuration; on rejection the application restarts its workload as the API documentation prescribes; the quinn-crate mapping to ZeroRttRejected errors is exercised under C18's executor only for the accept path.",
+         "DESIGN.md#c17"),
  "C20": ("E3", "fault_enumeration",
          "exhaustive insertion-point enumeration with differential (replay / time-translated / extra-call) runs of real endpoints",
          "For a list of input histories (baselines incl. Retry, CID rotation, key update, rebinding, migration, and every single-deviation history) the run is repeated: identically (bit-identical trace incl. every poll_timeout value), with all Instants shifted by 1 s / 1 day / 10 years (identical relative trace), with a spurious handle_timeout or extra poll round inserted at EVERY step index on either side (identical packets, frames and events), and with all datagrams re-fed plus ten timeouts after both sides drained (no output). A timer may not fire more than 16 consecutive times at one instant.",
